@@ -94,6 +94,20 @@ def check_case(case, rec):
             rec.violation(f"oracle-accepted unit spelling reported as {'/'.join(ucodes)}", case, key=key_for_blank())
         elif plain and errs:
             rec.violation("accepted unit on a plain tag draws another error: " + "/".join(sorted({i['code'] for i in errs})), case)
+        # the same value handed to the tag through a definition's placeholder is judged the same way
+        if plain and not ucodes and not errs and not case.get("prefix") and "definition" in o.by_short and (hash(text) % 7 == 0):
+            from hed.models.definition_dict import DefinitionDict
+            rec.mon("value-through-def")
+            try:
+                dd = DefinitionDict([f"({ns}Definition/Unitdef/#, ({nm}/#))"], schema)
+                di = HedString(f"{ns}Def/Unitdef/{num} {unit}", schema, dd).validate()
+                derr = sorted({i["code"] for i in di if i.get("severity", 1) == ErrorSeverity.ERROR})
+            except Exception as ex:  # noqa
+                rec.violation(f"validating a unit value through a Def raised {type(ex).__name__}", case)
+                derr = []
+            if dd.issues or derr:
+                rec.violation("an accepted number-with-unit is rejected when it reaches the tag through a Def", dict(case, observed=derr),
+                              key=key_for_blank())
         # conversion
         declared, fac = table.unambiguous_factor(unit)
         if declared and fac is not None:
